@@ -196,6 +196,8 @@ class C06(Engine):
                     continue
                 want = api_sig(ref["ops"][0])
                 got = api_sig(o)
+                if want[0] == "slow" or got[0] == "slow":
+                    continue          # inconclusive class: depends on the CPU-time cap, not on the code under test
                 if want != got:
                     if kind == "listing":
                         site = f"listing-perm: {got[0]} vs alone {want[0]}"
